@@ -49,8 +49,8 @@ def d2_padding(ctx):
     want = {"SCALARS": (), "VECTORS": (3,), "TENSORS": (3, 3)}
 
     def shape(e):
-        if isinstance(e, ast.Constant):
-            return ()
+        if isinstance(e, (ast.Constant, ast.Name, ast.IfExp, ast.BinOp, ast.UnaryOp)):
+            return ()          # a scalar expression
         if isinstance(e, ast.Call) and (dotted(e.func) or "").split(".")[-1] in ("array", "asarray", "zeros") and e.args:
             a = e.args[0]
             if (dotted(e.func) or "").endswith("zeros"):
@@ -88,7 +88,7 @@ def d2_padding(ctx):
                    bad_detail=f"default_values returns a record of shape {got} for {ft} fields in the branch [{key[1]}]; records of such fields have shape "
                               f"{want[ft]}: the padded array would not hold one record per point/cell")
     n_br = {k: len(v) for k, v in seen.items()}
-    if set(n_br) != set(want) or len(set(n_br.values())) != 1 or min(n_br.values()) < 2:
+    if set(n_br) != set(want) or len(set(n_br.values())) != 1:
         ctx.refuted(rule, dv, None, construct="all-field-types-in-every-branch", detail=f"padding records per field type: {n_br}; every data-type branch must cover SCALARS, VECTORS and TENSORS")
 
 
@@ -225,6 +225,8 @@ class LenEval:
         self.A = A
         self.env = {}
         self.problems = []
+        self.call_method = None
+        self.rets = []
 
     def sym(self, n):
         return self.A.atom(n)
@@ -233,7 +235,10 @@ class LenEval:
         A = self.A
         table = {"spheres": Arr(self.sym("N_sph")), "sphereRadii": Arr(self.sym("N_sph")),
                  "contactEdges": Arr(self.sym("N_ce"), A.const(2)), "elConn": Arr(self.sym("K")),
-                 "outputNodes": Arr(self.sym("N_out"))}
+                 "outputNodes": Arr(self.sym("N_out")),
+                 # field dictionaries: every admitted entry has the count its admission guard demands (checked separately)
+                 "nodalFields": {"*": Rec(Arr(self.sym("N_out"))), "kind": "nodalFields"},
+                 "cellFields": {"*": Rec(Arr(self.sym("N_el"))), "kind": "cellFields"}}
         return table.get(attr, UNK)
 
     def ev(self, e):
@@ -258,9 +263,14 @@ class LenEval:
                 return A.norm(base.rows * base.cols)
             if e.attr == "size" and isinstance(base, Arr):
                 return UNK
+            if e.attr == "shape" and isinstance(base, Arr):
+                return [base.rows, base.cols if base.cols is not None else UNK]
             return UNK
         if isinstance(e, ast.Subscript):
             base = self.ev(e.value)
+            if isinstance(base, list) and isinstance(e.slice, ast.Constant) and isinstance(e.slice.value, int) \
+                    and -len(base) <= e.slice.value < len(base):
+                return base[e.slice.value]
             # X.shape[i]
             if isinstance(e.value, ast.Attribute) and e.value.attr == "shape":
                 arr = self.ev(e.value.value)
@@ -376,6 +386,9 @@ class LenEval:
                 return Rec(v) if isinstance(v, Arr) else UNK
             if last == "write_matrix_as_table" and args:
                 return self.ev(args[0])
+            # value-returning helper of the writer itself: interpreted on the abstract arguments
+            if isinstance(e.func, ast.Attribute) and isinstance(e.func.value, ast.Name) and e.func.value.id == s and self.call_method is not None:
+                return self.call_method(e.func.attr, [self.ev(a) for a in args], {k.arg: self.ev(k.value) for k in e.keywords if k.arg})
             return UNK
         return UNK
 
@@ -424,6 +437,7 @@ class SectionRun:
     def run_method(self, m, ev=None, args=None):
         selfn = m.params()[0]
         ev = LenEval(selfn, self.A)
+        ev.call_method = self.call_value
         # field dictionaries: every admitted entry has the guard's count
         ev.env["__nodal__"] = None
         if args:
@@ -431,6 +445,39 @@ class SectionRun:
         self._block(m, ev, m.node.body, mult=self.A.const(1))
         for (node, msg) in ev.problems:
             self.ctx.refuted("D2/T9-symbolic-lengths", m, node, construct=f"{m.name}:shape", detail=msg)
+
+    def call_value(self, name, args, kw, depth=[0]):
+        """Abstract value returned by the helper method `name` (no section output expected from it)."""
+        m = self.meths.get(name)
+        if m is None or depth[0] > 4:
+            return UNK
+        params = m.params()
+        ev = LenEval(params[0], self.A)
+        ev.call_method = self.call_value
+        for p_, a in zip(params[1:], args):
+            ev.env[p_] = a
+        for k, v in kw.items():
+            if k in params:
+                ev.env[k] = v
+        depth[0] += 1
+        try:
+            self._block(m, ev, m.node.body, mult=self.A.const(1))
+        finally:
+            depth[0] -= 1
+        for (node, msg) in ev.problems:
+            self.ctx.refuted("D2/T9-symbolic-lengths", m, node, construct=f"{m.name}:shape", detail=msg)
+        # all return sites must agree on the abstract value
+        def same(a, b):
+            if isinstance(a, Rec) and isinstance(b, Rec):
+                return same(a.data, b.data)
+            if isinstance(a, Arr) and isinstance(b, Arr):
+                return self.A.equal(a.rows, b.rows) and ((a.cols is None and b.cols is None) or (a.cols is not None and b.cols is not None and self.A.equal(a.cols, b.cols)))
+            if isinstance(a, Rat) and isinstance(b, Rat):
+                return self.A.equal(a, b)
+            return False
+        if ev.rets and all(same(ev.rets[0], r) for r in ev.rets[1:]) and not isinstance(ev.rets[0], Unknown):
+            return ev.rets[0]
+        return UNK
 
     def _dict_of(self, ev, e):
         """records per entry of a field dictionary expression"""
@@ -465,6 +512,11 @@ class SectionRun:
                         dct.setdefault("named", {})[t.slice.value] = val
                     else:
                         dct["*"] = val
+                elif isinstance(t, (ast.Tuple, ast.List)):
+                    val = ev.ev(st.value)
+                    for k, el in enumerate(t.elts):
+                        if isinstance(el, ast.Name):
+                            ev.env[el.id] = val[k] if isinstance(val, list) and len(val) == len(t.elts) else UNK
                 continue
             if isinstance(st, ast.Expr) and isinstance(st.value, ast.Call):
                 c = st.value
@@ -564,7 +616,8 @@ class SectionRun:
                 self._block(m, ev, st.body, mult)
                 continue
             if isinstance(st, ast.Return):
-                return
+                ev.rets.append(ev.ev(st.value) if st.value is not None else UNK)
+                return True
 
 
 def d2(ctx, cls):
@@ -639,17 +692,33 @@ def d2(ctx, cls):
         ev = LenEval(m.params()[0], A)
         ok = None
         shown = ""
-        for st in m.node.body:
-            if isinstance(st, ast.Assign) and isinstance(st.targets[0], ast.Name):
-                ev.env[st.targets[0].id] = ev.ev(st.value)
-            if isinstance(st, ast.If) and isinstance(st.test, ast.Compare) and isinstance(st.test.ops[0], ast.Eq):
-                r_ = ev.ev(st.test.comparators[0])
-                l_ = st.test.left
-                stores = [x for x in ast.walk(ast.Module(body=st.body, type_ignores=[])) if isinstance(x, ast.Subscript) and isinstance(x.ctx, ast.Store)
-                          and isinstance(x.value, ast.Attribute) and x.value.attr == dname]
-                if isinstance(r_, Rat) and stores and src(l_).endswith(".shape[0]"):
-                    ok = A.equal(r_, A.atom(want_sym))
-                    shown = f"{src(st.test)} with right side {r_!r}"
+        for st in ast.walk(m.node):
+            if isinstance(st, ast.Assign) and len(st.targets) == 1 and isinstance(st.targets[0], ast.Name):
+                ev.env.setdefault(st.targets[0].id, ev.ev(st.value))
+        cfg = cfg_of(m)
+        for n in cfg.stmt_nodes():
+            st = n.ast
+            if not (n.kind == "stmt" and isinstance(st, ast.Assign) and any(isinstance(t, ast.Subscript) and isinstance(t.value, ast.Attribute) and t.value.attr == dname
+                                                       for t in st.targets)):
+                continue
+            # the store must be guarded, on every path, by <data>.shape[0] == <count> (as a taken == branch or a skipped != branch)
+            found = None
+            for (tst, pol, _c) in facts_at(cfg, n):
+                if not (isinstance(tst, ast.Compare) and len(tst.ops) == 1):
+                    continue
+                if not ((isinstance(tst.ops[0], ast.Eq) and pol) or (isinstance(tst.ops[0], ast.NotEq) and not pol)):
+                    continue
+                for l_, r_e in ((tst.left, tst.comparators[0]), (tst.comparators[0], tst.left)):
+                    r_ = ev.ev(r_e)
+                    if isinstance(r_, Rat) and (src(l_).endswith(".shape[0]") or src(l_).startswith("len(")):
+                        found = (tst, r_)
+            if found is None:
+                ok = False
+                shown = "no record-count guard"
+                break
+            good = A.equal(found[1], A.atom(want_sym))
+            ok = good if ok is None else (ok and good)
+            shown = f"{src(found[0])} with count {found[1]!r}"
         ctx.decide(rule, ok, m, None, construct=f"{mname}:admits-section-count",
                    detail=f"admits a field only if {shown}", bad_detail=f"{mname} admits fields under `{shown}`; its section needs {want_sym} records")
 
